@@ -108,6 +108,11 @@ def gen_plan(rng, tier, run):
                 if sec["subtype"] in (1, 2):
                     # a plausible count followed by data
                     sec["payload"] = (bytes([0, 0, 0, rng.randint(0, 3)]) + bytes.fromhex(sec["payload"])).hex()
+            elif sec["kind"] == "ud" and sec["comp"] == 0x2C00 and r["creator"] == "M" and rng.random() < 0.7:
+                # a well-formed I/O drawer trace buffer (header + entries), so that damage lands in fields the
+                # trace decoder interprets (buffer size, entry lengths) and not only in front of its first check
+                sec["subtype"], sec["ver"] = 84, rng.choice([1, 2])
+                sec["payload"] = common.gen_trace_payload(rng, sec["ver"])
     data = pelgen.build(r)
     while len(data) > 2300:
         r["sections"].pop()
@@ -163,6 +168,13 @@ def fault_list(plan, data):
         # the padded payload with only its last bytes damaged
         faults += [{"kind": "flip", "off": n - d, "val": v} for d in (1, 2) for v in (0x41, 0xFF)]
     faults += [{"kind": "torn", "off": k} for k in ks]
+    # size / offset words of an I/O drawer trace buffer header claiming (much) more than the section holds
+    for (sid, start, end), sec in zip(offs[2:], r["sections"]):
+        if sec["kind"] == "ud" and sec.get("comp") == 0x2C00 and sec.get("subtype") == 84 and end - start >= 8 + 32:
+            for fo in (20, 21, 28):
+                for val in (0xFF, 0x7F, 0x01):
+                    if start + 8 + fo < n and data[start + 8 + fo] != val:
+                        faults.append({"kind": "flip", "off": start + 8 + fo, "val": val})
     if plan["full_flips"]:
         for off in range(n):
             cur = data[off]
